@@ -561,6 +561,8 @@ def check_trace(run, res):
       if any(t[3] is None for t in ob.trace):
         res.violate('trace-record-without-time', {}, 'op#%d %s: a trace record has no timestamp: %s' % (i, ob.op, [t for t in ob.trace if t[3] is None]))
         return
+    elif k == 'clear_trace':
+      continue
     elif ob.trace_before is not None and ob.trace is not None:
       if [t[:3] for t in ob.trace_before] != [t[:3] for t in ob.trace]:
         res.violate('trace-step', {'kind': 'non-step-op'}, 'op#%d %s changed the trace' % (i, ob.op))
@@ -577,14 +579,52 @@ def check_live(run, res):
   from sim import seams
   H = seams.mods['hsm'].HsmEventProcessor
   SPY, TRC = H.SPY_RING_BUFFER_SIZE, H.TRC_RING_BUFFER_SIZE
+  live_spy, live_trace = bool(sc.get('live_spy')), bool(sc.get('live_trace'))
+  stale = None        # a record made while live trace was off: it may still be handed out once (it never was), but only before any newer one
   for i, ob in enumerate(run.steps):
     k = ob.op[0]
     if ob.exc is not None:
       return
+    if k == 'live':
+      was = live_trace
+      live_spy, live_trace = bool(ob.op[1]), bool(ob.op[2])
+      if ob.live_spy or ob.live_trace:
+        res.violate('live-spy' if ob.live_spy else 'live-trace', {'op': 'switch', 'got': 'more'},
+                    'op#%d %s: switching live output handed lines to the callbacks: %s %s' % (i, ob.op, ob.live_spy, ob.live_trace))
+        return
+      if live_trace and not was and ob.trace:
+        stale = ob.trace[-1]
+      if not live_trace:
+        stale = None
+      continue
+    if k == 'clear_trace':
+      stale = None
     if not ob.instrumented or k not in ('start', 'ev', 'rtc', 'circuit'):
+      if ob.live_spy or ob.live_trace:
+        res.violate('live-spy' if ob.live_spy else 'live-trace', {'op': 'non-step', 'got': 'more'},
+                    'op#%d %s is not a step but lines were handed to the live callbacks: %s %s' % (i, ob.op, ob.live_spy, ob.live_trace))
+        return
       continue
     head = 'op#%d %s host=%s' % (i, ob.op, run.host)
-    if sc.get('live_spy') and ob.spy_full is not None and len(ob.spy_full) < SPY:
+    if not live_spy and ob.live_spy:
+      res.violate('live-spy', {'op': k, 'got': 'more'}, '%s: live spy is switched off but the callback received %s' % (head, ob.live_spy))
+      return
+    if not live_trace and ob.live_trace:
+      res.violate('live-trace', {'op': 'step', 'got': 'more'}, '%s: live trace is switched off but the callback received %s' % (head, ob.live_trace))
+      return
+    new_recs = None
+    if ob.trace is not None and ob.trace_objs is not None:
+      before_objs = ob.trace_objs_before if (k != 'start' and ob.trace_objs_before is not None) else []
+      old_ids = set(id(o) for o in before_objs)
+      new_recs = [t for t, o in zip(ob.trace, ob.trace_objs) if id(o) not in old_ids]
+    got_trace = list(ob.live_trace)
+    if live_trace and stale is not None and new_recs is not None and len(got_trace) == len(new_recs) + 1 \
+        and ('%s->%s' % (stale[0], stale[2])) in got_trace[0]:
+      # the newest record from the time live trace was off is handed out now, for the first time: tolerated once
+      got_trace = got_trace[1:]
+    if ob.live_trace or new_recs:
+      stale = None
+    if live_spy and ob.spy_full is not None and len(ob.spy_full) < SPY:
       before = ob.spy_full_before if (k != 'start' and ob.spy_full_before is not None) else []
       new = ob.spy_full[len(before):]
       if ob.live_spy != new:
@@ -592,19 +632,26 @@ def check_live(run, res):
         res.violate('live-spy', {'op': k, 'got': 'fewer' if len(ob.live_spy) < len(new) else ('more' if len(ob.live_spy) > len(new) else 'different')},
                     '%s: the steps produced the spy lines %s but the live spy callback received %s (first difference at %s)' % (head, new, ob.live_spy, d))
         return
-    if sc.get('live_trace') and ob.trace is not None:
+    if live_trace and ob.trace is not None:
       # new records are told from old ones by object identity (the ring may have wrapped: its length says nothing)
       before = ob.trace_objs_before if (k != 'start' and ob.trace_objs_before is not None) else []
       old_ids = set(id(o) for o in before)
       new = [t for t, o in zip(ob.trace, ob.trace_objs) if id(o) not in old_ids]
-      if len(ob.trace) >= TRC and len(new) == len(ob.trace) and before:
-        continue      # more new records than the ring holds: some were pushed out unseen
-      if len(ob.live_trace) != len(new):
-        res.violate('live-trace', {'op': 'start' if k == 'start' else 'step', 'got': 'fewer' if len(ob.live_trace) < len(new) else 'more'},
+      if len(ob.trace) >= TRC and len(new) == len(ob.trace):
+        # every record the ring holds is new: older new ones may have been pushed out unseen.
+        # The callback must have received at least these, and its last lines must describe them
+        if len(got_trace) < len(new) or any(('%s->%s' % (t[0], t[2])) not in line for t, line in zip(new, got_trace[-len(new):])):
+          res.violate('live-trace', {'op': 'start' if k == 'start' else 'step', 'got': 'fewer' if len(got_trace) < len(new) else 'wrong-line'},
+                      '%s: the trace ring holds %d new record(s) %s but the live trace callback received %s' % (
+                        head, len(new), [t[:3] for t in new], got_trace))
+          return
+        continue
+      if len(got_trace) != len(new):
+        res.violate('live-trace', {'op': 'start' if k == 'start' else 'step', 'got': 'fewer' if len(got_trace) < len(new) else 'more'},
                     '%s: %d new trace record(s) %s but the live trace callback was called %d time(s): %s' % (
-                      head, len(new), [t[:3] for t in new], len(ob.live_trace), ob.live_trace))
+                      head, len(new), [t[:3] for t in new], len(got_trace), got_trace))
         return
-      for t, line in zip(new, ob.live_trace):
+      for t, line in zip(new, got_trace):
         want = '%s->%s' % (t[0], t[2])
         if want not in line:
           res.violate('live-trace', {'op': 'start' if k == 'start' else 'step', 'got': 'wrong-line'},
